@@ -286,6 +286,13 @@ func c12Concurrent(r *Run, nG int) {
 		ok       bool
 	}
 	var pend []*pending
+	r.OnCleanup(func() {
+		mu.Lock()
+		for _, p := range pend {
+			p.cancel()
+		}
+		mu.Unlock()
+	})
 	nops := t.Range(6, 30)
 	// per-guard programs are drawn up front so that goroutines never touch the tape
 	progs := make([][]string, nG)
@@ -303,6 +310,9 @@ func c12Concurrent(r *Run, nG int) {
 			g := &guards[gi]
 			for _, op := range progs[gi] {
 				s.Yield(0, "op", op)
+				if s.stopping.Load() {
+					return // the run is over: do not start (and possibly block in) another operation
+				}
 				call := stamp()
 				var out c12Out
 				switch op {
